@@ -2,7 +2,7 @@
 import os
 from . import lib
 from .engine import Cfg
-from .roomlib import kv, ulist, rlist
+from .roomlib import kv, ulist, rlist, nest_tree
 
 
 # ----------------------------------------------------------------------------- independent evaluator
@@ -97,15 +97,15 @@ class C01(Cfg):
                   "need a room admin at the op's date; a group's users a room admin or that group's user admin) and the generator makes user admins that are not room admins try each of these. The model is tied to /repo by running both on generated operation sequences and comparing verdict and the full "
                   "content of _node, _edge and both deletion logs after every operation.")
     level_note = ("Trusted: Lean kernel, the hand-written model lean/DiscretModel/Model/LocalWrite.lean (+Room, RoomBuild) and its harness. Modelled and exercised: "
-                  "mutation_query.rs (plan), authorisation_service.rs validate_* (local), deletion.rs. Mutation trees are limited to depth two (an entity and the "
-                  "sub-entities of one reference field) in model and run. Only exercised: SQL text, pest parsers, serde. Several caller identities share one database "
+                  "mutation_query.rs (plan), authorisation_service.rs validate_* (local), deletion.rs. Mutation trees of any depth in the model (structural recursion on the tree), depth <= 5 in the run; "
+                  "one reference field per entity of the tree. Only exercised: SQL text, pest parsers, serde. Several caller identities share one database "
                   "through RoomAuthorisations values built by the harness (public fields) — a running service has one identity.")
     trusted_base = [
         "hand-written model lean/DiscretModel/Model/LocalWrite.lean, tied by the correspondence run (dv-room mode=fn vs dmodel_room)",
         "harness/room/src/bench.rs: calls the real plan/validate/write functions in the order the services chain them",
     ]
     assumptions = [
-        "mutation trees of depth <= 2, one scalar field per entity, one reference field per mutation",
+        "one scalar field and at most one reference field per entity of a mutation tree (any depth); rows named twice in one tree are not generated",
         "the services chain parse -> execute -> validate -> write as bench.rs does (checked on the C10 stream, which goes through the real services)",
     ]
 
@@ -207,8 +207,8 @@ class C01(Cfg):
                     if ok: continue
                     old, new = prows.get(h), rows.get(h)
                     sig = "unauthorised-write"
-                    if k == "nest" and h != a["h"] and prows.get(a["h"]) == rows.get(a["h"]):
-                        sig = "nested-subnode-unchanged-parent"
+                    if k == "nest" and h != a["h"] and any(prows.get(x) == rows.get(x) for x in nest_tree(a).get(h, [a["h"]])):
+                        sig = "nested-subnode-unchanged-parent"      # some row above it in the tree is unchanged
                     elif old and new and old[1] != new[1] and old[1] != "-" and str(r) == old[1]:
                         sig = "move-departing-room-unchecked"
                     elif k == "delref" and h == a["h"]:
